@@ -1,7 +1,11 @@
 #!/bin/sh
-# tools/mutant.sh <check id> <sed expression> <file under /repo/src/someip>  : apply, run quick check, revert
+# tools/mutant.sh <check id> <sed expression> [file under /repo/src/someip] : apply, run quick check, ALWAYS revert
 ID="$1"; EXPR="$2"; FILE="${3:-sd.py}"
-cd /repo && sed -i "$EXPR" "src/someip/$FILE" && git diff --stat | head -2
-cd /verif && ./check "$ID" 2>&1 | grep -v Warning | cut -c1-260 | head -${LINES_OUT:-6}
-echo "exit=$?"
-git -C /repo checkout -- . 
+OUT=$(mktemp)
+trap 'git -C /repo checkout -- . ; rm -f "$OUT"' EXIT INT TERM PIPE
+cd /repo && sed -i "$EXPR" "src/someip/$FILE"
+git -C /repo diff --stat | head -1 > "$OUT"
+cd /verif && ./check "$ID" >> "$OUT" 2>&1
+echo "exit=$?" >> "$OUT"
+git -C /repo checkout -- .
+grep -v Warning "$OUT" | cut -c1-260 | head -${LINES_OUT:-6} || true
